@@ -133,4 +133,25 @@ def measureHandleIndex (attr : String) (i : Nat) : Option Nat :=
 /-- `Qubit.entanglement_info` of pair `i`: field number `j` of `LinkLayerOKTypeK(*slice)` -/
 def entInfoIndex (j i : Nat) : Nat := i * okFieldsK + j
 
+/-! ### which returned qubit belongs to which pair (`Builder._create_ent_qubits`,
+`_build_cmds_wait_move_epr_to_mem`) -/
+
+/-- hardware with a single communication qubit (NV), all pairs requested at once: virtual id of
+returned qubit `i` of `n` (`final_id = num_pairs - 1 - i`) -/
+def nvHandleId (n i : Nat) : Nat := n - 1 - i
+
+/-- the same configuration: virtual id in which pair `k` (the k-th response, generated in the
+communication qubit 0) ends up: moved to memory qubit `n-1-k` unless it is the last pair -/
+def nvPairLocation (n k : Nat) : Nat := if k = n - 1 then 0 else n - 1 - k
+
+/-- result-array slice read by `entanglement_info` of returned qubit `i` (every configuration):
+`ent_info=ent_info_slice` of the i-th iteration -/
+def handleSlice (i : Nat) : Nat := i
+
+/-- (virtual id, slice) of returned qubit `i`, on a connection with no other live qubit:
+generic hardware gives fresh ids 0,1,… (one shared id 0 when sequential), NV as above (0 when
+sequential) -/
+def handleLayout (nv seq : Bool) (n i : Nat) : Nat × Nat :=
+  (if seq then 0 else if nv then nvHandleId n i else i, handleSlice i)
+
 end NQ.EprReq
